@@ -64,7 +64,7 @@ def run_extractor():
 
 
 BASELINE = os.path.join(EXTRACT, "baseline")
-GEN_FILES = ("Wire.lean", "Helpers.lean", "Dpt.lean", "Source.lean")
+GEN_FILES = ("Wire.lean", "Helpers.lean", "Dpt.lean", "Source.lean", "Client.lean")
 
 
 def changed_declarations():
